@@ -96,4 +96,14 @@ inline std::int64_t scaled_exact(double x, int q, const char* what) {
   return static_cast<std::int64_t>(y);
 }
 
+// a value computed by the library from dyadic inputs by operations that are exact on them: the nearest lattice
+// point when it is within 1e-9 (rounding noise is ~1e-14 here), otherwise `ok` is cleared and the event is logged
+// with an "off_lattice" field, which the trace specification rejects (the true value is on the lattice)
+inline std::int64_t scaled_near(double x, int q, bool& ok) {
+  double y = std::ldexp(x, q);
+  double r = std::nearbyint(y);
+  if (!(std::fabs(y - r) <= std::ldexp(1e-9, q)) || std::fabs(y) > 1e9) { ok = false; return 0; }
+  return static_cast<std::int64_t>(r);
+}
+
 }  // namespace perm
